@@ -16,7 +16,7 @@ import lib
 from lib import zlit, vlist, vopt
 
 LEVEL = "proof"
-UNITS = []
+UNITS = ["GenMemIO"]
 PAD = 8
 
 
@@ -106,7 +106,11 @@ def gen_case(rng, malformed=False, maxops=25):
             ops.append([vid, k])
             if k == "close":
                 v["closed"] = True
-    return dict(start=start, end=end, lo=lo, mem=mem, ops=ops, kind="malformed" if malformed else "valid")
+    case = dict(start=start, end=end, lo=lo, mem=mem, ops=ops, kind="malformed" if malformed else "valid")
+    if end >= start and rng.random() < 0.15:
+        case["via"] = "filelike"                # made by MachineController.sdram_alloc_as_filelike(end - start)
+        case["context"] = rng.random() < 0.5    # chip / app_id from a `with mc(x=, y=, app_id=)` context
+    return case
 
 
 def enum_cases():
@@ -170,6 +174,10 @@ def is_drop(o):
 
 
 def coq_case(c):
+    if c.get("via") == "filelike":
+        return "observe_filelike %s %s %s %s %s" % (zlit(c["start"]), zlit(c["end"] - c["start"]), zlit(c["lo"]),
+                                                    vlist(str(b) for b in c["mem"]),
+                                                    vlist(coq_op(o) for o in c["ops"] if not is_drop(o)))
     return "observe_case %s %s %s %s %s" % (zlit(c["start"]), zlit(c["end"]), zlit(c["lo"]),
                                             vlist(str(b) for b in c["mem"]),
                                             vlist(coq_op(o) for o in c["ops"] if not is_drop(o)))
@@ -233,7 +241,7 @@ def oracle(c, out):
         if o[0] == "ffree":
             # sdram_free raised: the block is still allocated, so nothing about the views changes
             for cl in calls:
-                fail("free-accesses-memory", "free() issued %r" % (cl,), i)
+                fail("controller-args" if cl[0] == "args" else "free-accesses-memory", "free() issued %r" % (cl,), i)
             continue
         if is_drop(o):
             continue                    # forgetting a view is not an operation: the other views carry on
@@ -243,7 +251,7 @@ def oracle(c, out):
             freed = True
             for cl in calls:
                 if cl[0] != "f":
-                    fail("free-accesses-memory", "free() issued %r" % (cl,), i)
+                    fail("controller-args" if cl[0] == "args" else "free-accesses-memory", "free() issued %r" % (cl,), i)
             continue
         vid, kind, mode = o[0], o[1], ""
         if kind in ("fread", "fwrite", "sread", "swrite"):
@@ -257,6 +265,9 @@ def oracle(c, out):
         vs, ve = base + v["lo"], base + v["hi"]
         # confinement: whatever the operation, whatever its outcome
         for cl in calls + att:                  # (att: the access during which the controller raised)
+            if cl[0] == "args":
+                fail("controller-args", "controller called for chip/core %r, the view is on (1, 2), core 0" % (cl[1:],), i)
+                continue
             if cl[0] == "f":
                 fail("view-op-frees", "issued sdram_free", i)
                 continue
@@ -301,6 +312,15 @@ def oracle(c, out):
             label = "refused-" + kind
             if calls:
                 fail("transfer-then-raise", "%s raised TruncationWarning after issuing %r" % (kind, calls), i)
+            # ... and it may be refused only if bytes really would have been cut (a bounded file does not fail
+            # on read(0) / write(b''), nor on a request that fits); positions before 0 have no file counterpart
+            # for the default read, so that one is not judged
+            req = (-1 if o[2] is None else o[2]) if kind == "read" else len(o[2])
+            avail = max(0, n - pos) if pos >= 0 else 0
+            if (req >= 0 and min(req, avail) == req) or (req < 0 and pos >= 0):
+                fail("spurious-truncation-error", "%s of %s bytes at position %d of %d raised TruncationWarning under "
+                     "the `error` filter although nothing would have been cut" % (
+                         kind, "all remaining" if req < 0 else req, pos, n), i)
         elif kind == "seek":
             wh = 0 if o[3] is None else o[3]
             if wh not in (0, 1, 2):
@@ -432,6 +452,7 @@ def run(chk, args):
     chk.assumptions += ["start/end addresses, seek offsets, read counts and slice bounds are Python ints; written "
                         "data are bytes", "the controller's read returns exactly the number of bytes asked for",
                         "views are used from one thread"]
+    chk.regenerate(UNITS)
     built = chk.prove()
     corpus_path = lib.os.path.join(lib.VERIF, "corpus", "C13.json")
     if args.replay:
@@ -453,6 +474,7 @@ def run(chk, args):
     reported = {}
     for c, o in zip(cases, outs):
         chk.count("kind:" + c.get("kind", "?"))
+        chk.count("made-by:" + (c.get("via", "MemoryIO") + ("+context" if c.get("context") else "")))
         if o[0] == "ok":
             f, nt = features(c, o)
             for x in f:
